@@ -7,7 +7,7 @@ Ltac Zify.zify_post_hook ::= Z.div_mod_to_equations.
 Definition R (s : q) (lg : list msg) : Prop :=
   app s = length lg /\ meta s = length lg /\
   (forall n m, nth_error lg n = Some m ->
-     exists a l, lookup n (index s) = Some (a, l) /\ read (data s) a l = Some m /\ (1 <= l)%N /\ (a + l <= cursor s)%N) /\
+     exists a l, lookup n (index s) = Some (a, l) /\ read (data s) a l = Some m /\ (a + l <= cursor s)%N) /\
   (* entries are laid out in sequence order, so the last one ends highest *)
   (forall n n' a l a' l', n < n' -> n' < length lg ->
      lookup n (index s) = Some (a, l) -> lookup n' (index s) = Some (a', l') -> (a + l <= a')%N).
@@ -15,11 +15,14 @@ Definition R (s : q) (lg : list msg) : Prop :=
 Lemma place_ge c l : (c <= place c l)%N.
 Proof. unfold place, P. destruct (N.leb_spec (c mod 134217728 + l) 134217728); lia. Qed.
 
-Lemma read_write_same d a l m : read (write d a l m) a l = Some m.
-Proof. unfold write. simpl. rewrite !N.eqb_refl. reflexivity. Qed.
+Lemma read_write_same d a l m : (l = 0%N -> m = 0) -> read (write d a l m) a l = Some m.
+Proof.
+  intros H0. unfold read. destruct (N.eqb_spec l 0) as [E|E]; [rewrite (H0 E); reflexivity|].
+  unfold write. simpl. rewrite !N.eqb_refl. reflexivity.
+Qed.
 
-Lemma read_filter_other d a l b k : (1 <= k)%N -> (b + k <= a)%N ->
-  read (filter (fun '(b0, k0, _) => negb (overlaps a l b0 k0)) d) b k = read d b k.
+Lemma read_ne_filter_other d a l b k : (1 <= k)%N -> (b + k <= a)%N ->
+  read_ne (filter (fun '(b0, k0, _) => negb (overlaps a l b0 k0)) d) b k = read_ne d b k.
 Proof.
   intros Hk Hb. induction d as [|[[b0 k0] m0] d IH]; simpl; [reflexivity|].
   destruct (N.eqb_spec b0 b) as [->|Nb]; destruct (N.eqb_spec k0 k) as [->|Nk]; simpl.
@@ -34,32 +37,40 @@ Proof.
     destruct (N.eqb_spec b0 b); [congruence|]. simpl. exact IH.
 Qed.
 
-Lemma read_write_other d a l m b k : (1 <= k)%N -> (b + k <= a)%N -> read (write d a l m) b k = read d b k.
+Lemma read_filter_other d a l b k : (b + k <= a)%N ->
+  read (filter (fun '(b0, k0, _) => negb (overlaps a l b0 k0)) d) b k = read d b k.
 Proof.
-  intros Hk Hb. unfold write. simpl. destruct (N.eqb_spec a b); [lia|]. simpl. apply read_filter_other; assumption.
+  intros Hb. unfold read. destruct (N.eqb_spec k 0) as [E|E]; [reflexivity|].
+  apply read_ne_filter_other; [lia|exact Hb].
+Qed.
+
+Lemma read_write_other d a l m b k : (b + k <= a)%N -> read (write d a l m) b k = read d b k.
+Proof.
+  intros Hb. unfold read. destruct (N.eqb_spec k 0) as [E|E]; [reflexivity|].
+  unfold write. simpl. destruct (N.eqb_spec a b); [lia|]. simpl. apply read_ne_filter_other; [lia|exact Hb].
 Qed.
 
 (* the part of R that survives a crash: persisted structures only *)
 Definition C (s : q) (lg : list msg) : Prop :=
   meta s = length lg /\
   (forall n m, nth_error lg n = Some m ->
-     exists a l, lookup n (index s) = Some (a, l) /\ read (data s) a l = Some m /\ (1 <= l)%N) /\
+     exists a l, lookup n (index s) = Some (a, l) /\ read (data s) a l = Some m) /\
   (forall n n' a l a' l', n < n' -> n' < length lg ->
      lookup n (index s) = Some (a, l) -> lookup n' (index s) = Some (a', l') -> (a + l <= a')%N).
 
 Lemma R_C s lg : R s lg -> C s lg.
 Proof. intros (H1 & H2 & H3 & H4). split; [exact H2|]. split; [|exact H4].
-  intros n m Hn. destruct (H3 n m Hn) as (a & l & ? & ? & ? & ?). exists a, l. auto. Qed.
+  intros n m Hn. destruct (H3 n m Hn) as (a & l & ? & ? & ?). exists a, l. auto. Qed.
 
 Lemma reopen_R s lg : C s lg -> R (reopen s) lg.
 Proof.
   intros (Hm & Hl & Ho). unfold R, reopen; simpl. split; [exact Hm|]. split; [exact Hm|]. split; [|exact Ho].
-  intros n m Hn. destruct (Hl n m Hn) as (a & l & E1 & E2 & E3). exists a, l. repeat split; auto.
+  intros n m Hn. destruct (Hl n m Hn) as (a & l & E1 & E2). exists a, l. repeat split; auto.
   assert (Hlt : n < length lg) by (apply nth_error_Some; congruence).
   rewrite Hm. destruct (length lg) as [|k] eqn:Ek; [lia|].
   assert (Hlast : exists mk, nth_error lg k = Some mk).
   { destruct (nth_error lg k) eqn:E; [eauto|]. apply nth_error_None in E. lia. }
-  destruct Hlast as (mk & Hk). destruct (Hl k mk Hk) as (ak & lk & Ek1 & _ & _). rewrite Ek1.
+  destruct Hlast as (mk & Hk). destruct (Hl k mk Hk) as (ak & lk & Ek1 & _). rewrite Ek1.
   destruct (Nat.eq_dec n k) as [->|Hne]; [rewrite E1 in Ek1; inversion Ek1; lia|].
   assert (a + l <= ak)%N by (apply (Ho n k a l ak lk); auto; lia). lia.
 Qed.
@@ -68,18 +79,18 @@ Lemma lookup_cons_ne t e ix n : t <> n -> lookup n ((t, e) :: ix) = lookup n ix.
 Proof. intros H. simpl. destruct (Nat.eqb_spec t n); congruence. Qed.
 
 (* a completed append *)
-Lemma put_R s lg m l : R s lg -> (1 <= l <= P)%N -> R (step s (Put m l)) (lg ++ [m]).
+Lemma put_R s lg m l : R s lg -> (l <= P)%N /\ (l = 0%N -> m = 0) -> R (step s (Put m l)) (lg ++ [m]).
 Proof.
   intros (Ha & Hm & Hl & Ho) Hok. cbn [step]. pose proof (place_ge (cursor s) l) as Hp.
   set (a := place (cursor s) l) in *.
   unfold R; cbn [data index meta cursor app]. rewrite app_length; cbn [length]. split; [lia|]. split; [lia|]. split.
   - intros n m0 Hn. destruct (Nat.eq_dec n (length lg)) as [->|Hne].
     + rewrite nth_error_app2, Nat.sub_diag in Hn by lia. simpl in Hn. inversion Hn; subst m0.
-      exists a, l. cbn [lookup]. rewrite Ha, Nat.eqb_refl. repeat split; [apply read_write_same|lia|lia].
+      exists a, l. cbn [lookup]. rewrite Ha, Nat.eqb_refl. repeat split; [apply read_write_same; tauto|lia].
     + assert (Hlt : n < length lg).
       { assert (n < length (lg ++ [m])) by (apply nth_error_Some; congruence). rewrite app_length in H; simpl in H. lia. }
       rewrite nth_error_app1 in Hn by exact Hlt.
-      destruct (Hl n m0 Hn) as (b & k & E1 & E2 & E3 & E4). exists b, k.
+      destruct (Hl n m0 Hn) as (b & k & E1 & E2 & E4). exists b, k.
       rewrite lookup_cons_ne by lia. repeat split; auto; [|lia].
       rewrite read_write_other; auto. lia.
   - intros n n' b k b' k' Hnn Hn' E1 E2.
@@ -88,7 +99,7 @@ Proof.
       rewrite lookup_cons_ne in E1 by lia.
       assert (Hex : exists mn, nth_error lg n = Some mn).
       { destruct (nth_error lg n) eqn:E; [eauto|]. apply nth_error_None in E. lia. }
-      destruct Hex as (mn & Hmn). destruct (Hl n mn Hmn) as (b0 & k0 & F1 & _ & _ & F4).
+      destruct Hex as (mn & Hmn). destruct (Hl n mn Hmn) as (b0 & k0 & F1 & _ & F4).
       rewrite F1 in E1. inversion E1; subst. lia.
     + rewrite lookup_cons_ne in E1 by lia. rewrite lookup_cons_ne in E2 by lia.
       apply (Ho n n' b k b' k'); auto. lia.
@@ -96,12 +107,12 @@ Qed.
 
 (* data written at or above the cursor, and an index binding at the next sequence, do not disturb the log *)
 Lemma crash_C s lg d' ix' : R s lg ->
-  (forall b k, (1 <= k)%N -> (b + k <= cursor s)%N -> read d' b k = read (data s) b k) ->
+  (forall b k, (b + k <= cursor s)%N -> read d' b k = read (data s) b k) ->
   (forall n, n < length lg -> lookup n ix' = lookup n (index s)) ->
   C {| data := d'; index := ix'; meta := meta s; cursor := 0%N; app := 0 |} lg.
 Proof.
   intros (Ha & Hm & Hl & Ho) Hd Hi. unfold C; simpl. split; [exact Hm|]. split.
-  - intros n m Hn. destruct (Hl n m Hn) as (a & l & E1 & E2 & E3 & E4). exists a, l.
+  - intros n m Hn. destruct (Hl n m Hn) as (a & l & E1 & E2 & E4). exists a, l.
     assert (n < length lg) by (apply nth_error_Some; congruence).
     rewrite Hi by assumption. rewrite Hd by assumption. auto.
   - intros n n' a l a' l' Hnn Hn' E1 E2. rewrite Hi in E1 by lia. rewrite Hi in E2 by lia.
@@ -121,16 +132,16 @@ Proof.
     destruct c; simpl step; simpl alog; apply reopen_R.
     + (* torn copy *)
       eapply C_irrelevant. apply (crash_C s lg _ _ HR).
-      * intros b k Hk Hb. unfold scribble. apply read_filter_other; [exact Hk|lia].
+      * intros b k Hb. unfold scribble. apply read_filter_other; lia.
       * intros n Hn. reflexivity.
     + eapply C_irrelevant. apply (crash_C s lg _ _ HR).
-      * intros b k Hk Hb. apply read_write_other; [exact Hk|lia].
+      * intros b k Hb. apply read_write_other; lia.
       * intros n Hn. reflexivity.
     + eapply C_irrelevant. apply (crash_C s lg _ _ HR).
-      * intros b k Hk Hb. apply read_write_other; [exact Hk|lia].
+      * intros b k Hb. apply read_write_other; lia.
       * intros n Hn. reflexivity.
     + eapply C_irrelevant. apply (crash_C s lg _ _ HR).
-      * intros b k Hk Hb. apply read_write_other; [exact Hk|lia].
+      * intros b k Hb. apply read_write_other; lia.
       * intros n Hn. destruct HR as (Ha & _). apply lookup_cons_ne. lia.
     + (* meta already written: the append is visible as a whole *)
       pose proof (put_R s lg m l HR Hok) as HP. apply R_C in HP. simpl in HP.
@@ -178,4 +189,14 @@ Proof. destruct o as [m l|m l c|]; simpl; [exists [m]|destruct c; (exists [] + e
 Example roll_over_example :
   let '(s, lg) := run init [] [Put 1 (100 * 1024 * 1024)%N; PutCrash 2 (60 * 1024 * 1024)%N AfterIndex; Put 3 (60 * 1024 * 1024)%N; Reopen; Put 4 10%N] in
   (lg, map (get s) [0; 1; 2; 3], lookup 1 (index s)) = ([1; 3; 4], [Some 1; Some 3; Some 4; None], Some (134217728, 62914560)%N).
+Proof. vm_compute. reflexivity. Qed.
+
+(* the empty message is a message like any other: it takes a sequence, is read back (as the empty content, id 0), survives a
+   crash after its meta store and a reopen, and the next message starts where it stands *)
+Definition empty_ops := [Put 1 5%N; Put 0 0%N; Put 0 0%N; PutCrash 0 0%N AfterMeta; Put 2 3%N; Reopen].
+Example empty_message_ok : Forall ok_op empty_ops.
+Proof. unfold empty_ops, ok_op, P. repeat (apply Forall_cons || apply Forall_nil); try exact I; (split; [lia|intros H; (reflexivity || discriminate H)]). Qed.
+Example empty_message_example :
+  let '(s, lg) := run init [] empty_ops in
+  (lg, map (get s) [0; 1; 2; 3; 4; 5], lookup 4 (index s)) = ([1; 0; 0; 0; 2], [Some 1; Some 0; Some 0; Some 0; Some 2; None], Some (5, 3)%N).
 Proof. vm_compute. reflexivity. Qed.
